@@ -275,9 +275,11 @@ pub proof fn lemma_vote_preserves(s: Raw, id: u64, a: Seq<char>, vote: Vote, b: 
     r is Ok ==> inv(final(deps.storage).view())
 @ensures C05.vote_nomsg
     r is Ok ==> r->Ok_0.messages@.len() == 0
+@ensures C06.an_entitled_voter_is_never_refused C03
+    vote_allowed(old(deps.storage).view(), proposal_id, info.sender@, &env.block) ==> r is Ok
 @closure 1 C06.vote_once
     (res: Result<Ballot, ContractError>)
-    ensures res is Ok ==> bal is None && res->Ok_0 == (Ballot { weight: vote_power, vote })
+    ensures res is Ok ==> bal is None && res->Ok_0 == (Ballot { weight: vote_power, vote }), bal is None ==> res is Ok
 @prefix
     broadcast use cw3_axioms;
     proof {
@@ -345,6 +347,8 @@ pub open spec fn step_close(s: Raw, t: Raw, b: &BlockInfo, id: u64) -> bool {
 @fn contracts/cw3-fixed-multisig/src/contract.rs execute_execute
 @requires
     inv(old(deps.storage).view())
+@ensures C05.execute_refused_leaves_no_trace C03
+    r is Err ==> final(deps.storage).view() == old(deps.storage).view()
 @ensures C05.execute_only_passed C03
     r is Ok ==> step_execute(old(deps.storage).view(), final(deps.storage).view(), &env.block, proposal_id)
 @ensures C05.execute_dispatches_exactly
@@ -366,6 +370,8 @@ pub open spec fn step_close(s: Raw, t: Raw, b: &BlockInfo, id: u64) -> bool {
 @fn contracts/cw3-fixed-multisig/src/contract.rs execute_close
 @requires
     inv(old(deps.storage).view())
+@ensures C05.close_refused_leaves_no_trace C03
+    r is Err ==> final(deps.storage).view() == old(deps.storage).view()
 @ensures C05.close_only_expired_unpassed C03
     r is Ok ==> step_close(old(deps.storage).view(), final(deps.storage).view(), &env.block, proposal_id)
 @ensures C05.close_dispatches_nothing
